@@ -45,6 +45,9 @@ func (st *Transfer) SendFiles(fileList *fileList) error {
 			continue
 		}
 
+		if fileIndex < 0 || int(fileIndex) >= len(fileList.Files) {
+			return fmt.Errorf("protocol error: file index %d out of range (file list has %d entries)", fileIndex, len(fileList.Files))
+		}
 		fl := fileList.Files[fileIndex]
 		st.Progress.Reset(uint64(fl.Length))
 
